@@ -395,6 +395,63 @@ def check_invalid_param(case):
                     cost=case["cost"], param=case["param"], kind=case["kind"])
 
 
+# ------------------------------------------------------------------ structured fixed covariances
+
+
+def cov_structure_cells(tier):
+    """Fixed covariances with the structure real baselines have: equicorrelated channels (a repeated eigenvalue), a one-factor
+    model I + v v', channels in very different units (standard deviations 1000 and 0.004: eigenvalue ratio 6e10, a
+    perfectly conditioned problem column by column), block structure. Data in the matching units."""
+    i = 0
+    for kind in ("equicorrelated", "one_factor", "mixed_units_diagonal", "mixed_units_correlated", "block"):
+        for p_ in (2, 3, 4, 6):
+            for rho in (0.3, 0.9):
+                i += 1
+                yield {"kind": kind, "p": p_, "rho": rho, "seed": 34000 + i}
+
+
+def check_cov_structure(case):
+    from skchange.costs import GaussianCovCost
+
+    kind, p_, rho = case["kind"], case["p"], case["rho"]
+    rng = np.random.Generator(np.random.PCG64(case["seed"]))
+    sd = np.ones(p_)
+    if kind == "equicorrelated":
+        R = (1 - rho) * np.eye(p_) + rho * np.ones((p_, p_))
+    elif kind == "one_factor":
+        v = np.linspace(0.5, 1.5, p_)
+        R = np.eye(p_) + rho * np.outer(v, v)
+    elif kind.startswith("mixed_units"):
+        sd = np.array([1000.0, 0.004, 1.0, 250.0, 0.02, 3.0][:p_])
+        R = np.eye(p_) if kind.endswith("diagonal") else (1 - rho / 2) * np.eye(p_) + (rho / 2) * np.ones((p_, p_))
+    else:
+        R = np.eye(p_)
+        R[0, 1] = R[1, 0] = rho
+    cov = R * np.outer(sd, sd)
+    n = 40
+    Z = rng.standard_normal((n, p_)) @ np.linalg.cholesky(R).T
+    X = Z * sd + 0.3 * sd
+    mean = 0.25 * sd
+    cuts = np.array([[0, n], [3, 17], [20, 39], [11, 12 + p_]])
+    with sut("GaussianCovCost with a structured fixed covariance"):
+        got = np.asarray(GaussianCovCost(param=(mean, cov)).fit(X).evaluate(cuts), dtype=float).ravel()
+    # definition in whitened units (exact arithmetic identity): x -> x / sd turns cov into the correlation matrix R
+    Xw, mw = (X / sd).astype(np.longdouble), (mean / sd).astype(np.longdouble)
+    Rinv = np.linalg.inv(R).astype(np.longdouble)
+    logdet = float(np.linalg.slogdet(R)[1] + 2 * np.sum(np.log(sd)))
+    want = []
+    for s_, e_ in cuts:
+        d = Xw[s_:e_] - mw
+        want.append(float((e_ - s_) * p_ * np.log(2 * np.pi) + (e_ - s_) * logdet + float(np.sum((d @ Rinv) * d))))
+    want = np.asarray(want)
+    tol = 1e-8 * (1 + np.abs(want)) * (1 + np.linalg.cond(R))
+    if not np.all(np.isfinite(got)) or np.any(np.abs(got - want) > tol):
+        i = int(np.argmax(np.abs(got - want) - tol))
+        raise Violation("fixed-covariance cost differs from twice the negative Gaussian log-likelihood of the rows", kind=kind, p=p_, rho=rho,
+                        cut=cuts[i].tolist(), got=float(got[i]), expected=float(want[i]))
+    return {"nontrivial": True, "classes": [f"kind={kind}", f"p={p_}"]}
+
+
 # ------------------------------------------------------------------ structured batches on longer series
 
 
@@ -546,6 +603,13 @@ FACETS = [
         rule=("wrong-length mean/variance, non-positive variance, wrong-shape or non-positive-definite covariance; "
               "fit must raise ValueError; every case is non-trivial"),
         n_quick=300, n_thorough=3000, shards_quick=4, shards_thorough=8,
+    ),
+    Facet(
+        name="covariance_structures", kind="enumerate", enumerate=cov_structure_cells, check=check_cov_structure, exhaustive=True,
+        rule=("GaussianCovCost with fixed covariances of real structure - equicorrelated (repeated eigenvalue), one-factor I + v v', channels in units "
+              "1000 .. 0.004 (diagonal and correlated; eigenvalue ratio 6e10), block - p in {2,3,4,6}, rho 0.3 / 0.9, data in the matching units; "
+              "compared with the definition evaluated in whitened units (tolerance 1e-8 x cond of the *correlation* matrix); every cell non-trivial"),
+        shards_quick=8, shards_thorough=8, max_samples=1,
     ),
     Facet(
         name="structured_batches", kind="enumerate", enumerate=batch_cells, check=check_batches, exhaustive=True, time_limit=300,
